@@ -20,7 +20,7 @@ def tasks(tier, seed):
     import session_common as SC2
     for cs in ((5, 7, 11, 13) if tier == 'quick' else (3, 5, 6, 7, 9, 11, 13, 17, 23)):
         for t in SC2.session_tasks('quick', ['CHECK_C01', 'CHECK_C04', 'CHECK_C05'], 'coop_c%d' % cs, ('C01:', 'C04:', 'C05:'), nobj=6, scaled=True)[:1]:
-            t.text = t.text.replace('#define CFG_CONTAINER 40', '#define CFG_CONTAINER %d\n#define SCALED_BUFFER 16' % cs)
+            t.text = t.text.replace('#define CFG_CONTAINER 40', '#define CFG_CONTAINER %d\n#define SCALED_BUFFER %d' % (cs, max(16, cs)))
             t.tid = 'coop_scaled.c%d' % cs
             t.desc = 'cooperative schedule, 6 objects, container size %d, stream buffer 16 bytes, queue capacity 2: ' % cs + t.desc
             t.opts = dict(t.opts, digest_tags=())
